@@ -326,6 +326,16 @@ func TestC18_Random(t *testing.T) {
 			}
 			which := rapid.IntRange(0, 2).Draw(t, "helper")
 			main := []string{"app", "biz", "rpc"}[which]
+			// aim at the length boundary: built names of exactly 36, 35 and 34 characters
+			if target := rapid.SampledFrom([]int{36, 0, 35, 34, 0}).Draw(t, "targetLen"); target > 0 {
+				room := target - len("_"+main+"_") // characters left for sub[_action]
+				if action != "" {
+					al := rapid.IntRange(1, room-2).Draw(t, "actionLen")
+					action = strings.Repeat("k", al)
+					room -= al + 1
+				}
+				sub = strings.Repeat("s", room-1) + "9"
+			}
 			want := "_" + main + "_" + sub
 			if action != "" {
 				want += "_" + action
